@@ -21,6 +21,11 @@ import (
 type c09Fault struct {
 	Exec  int `json:"exec,omitempty"`
 	Write int `json:"write,omitempty"`
+	// Read: the k-th look-up of a single stored revision (ReadRevision) of the attempt fails.
+	Read int `json:"read,omitempty"`
+	// Scan: in this attempt the text of the Scan-th file (1-based, name order) cannot be scanned (an
+	// unclosed quote after its statements; the directory is re-hashed); later attempts see the good file.
+	Scan int `json:"scan,omitempty"`
 }
 
 type c09Case struct {
@@ -115,6 +120,11 @@ func c09Run(cs c09Case) (why, key string, trace []string) {
 	defer func() { trace = world.EvStrings(w.Log) }()
 	for ai, f := range attempts {
 		w.ExecN, w.WriteN, w.FailExec, w.FailWrite = 0, 0, f.Exec, f.Write
+		w.ReadN, w.FailRead = 0, f.Read
+		dir := dir
+		if f.Scan > 0 {
+			dir = c09BadDir(dir, f.Scan)
+		}
 		start := len(w.Log)
 		startRevs := map[string]*migrate.Revision{}
 		for k, v := range w.Revs {
@@ -179,8 +189,8 @@ func c09Run(cs c09Case) (why, key string, trace []string) {
 			}
 		}
 		// A faulted attempt must stop: it returns an error and executes nothing after the fault.
-		if ai < len(attempts)-1 && (f.Exec != 0 || f.Write != 0) {
-			faultHit := (f.Exec != 0 && w.ExecN >= f.Exec) || (f.Write != 0 && w.WriteN >= f.Write)
+		if ai < len(attempts)-1 && (f.Exec != 0 || f.Write != 0 || f.Read != 0) {
+			faultHit := (f.Exec != 0 && w.ExecN >= f.Exec) || (f.Write != 0 && w.WriteN >= f.Write) || (f.Read != 0 && w.ReadN >= f.Read)
 			if faultHit && rerr == nil {
 				return fmt.Sprintf("attempt %d: injected fault %+v swallowed (nil error)", ai, f), "fault-swallowed", nil
 			}
@@ -221,6 +231,23 @@ func c09Run(cs c09Case) (why, key string, trace []string) {
 		}
 	}
 	return "", "", nil
+}
+
+// c09BadDir returns a copy of the directory in which the n-th file (name order) ends with text the
+// statement scanner rejects.
+func c09BadDir(good *migrate.MemDir, n int) *migrate.MemDir {
+	bad := &migrate.MemDir{}
+	files, _ := good.Files()
+	for i, f := range files {
+		b := append([]byte(nil), f.Bytes()...)
+		if i == n-1 {
+			b = append(b, []byte("SELECT 'unclosed;\n")...)
+		}
+		bad.WriteFile(f.Name(), b)
+	}
+	sum, _ := bad.Checksum()
+	migrate.WriteSumFile(bad, sum)
+	return bad
 }
 
 func prefixVersions(cs c09Case) bool {
@@ -336,6 +363,22 @@ func runC09(c *rt.Ctx) {
 			}
 		}
 	}
+	// transient read faults (after any first fault) and files that cannot be scanned in one attempt
+	for _, sh := range [][]int{{2}, {1, 2}, {2, 1, 2}, {3, 1}} {
+		fs := single(sh)
+		for k := 1; k <= 3; k++ {
+			cases = append(cases, c09Case{Shape: sh, Faults: []c09Fault{{Read: k}}})
+			for _, f1 := range fs[1:] {
+				cases = append(cases, c09Case{Shape: sh, Faults: []c09Fault{f1, {Read: k}}})
+			}
+		}
+		for fi := 1; fi <= len(sh); fi++ {
+			cases = append(cases, c09Case{Shape: sh, Faults: []c09Fault{{Scan: fi}}}, c09Case{Shape: sh, Faults: []c09Fault{{Scan: fi}, {Scan: fi}}})
+			for _, f1 := range fs[1:] {
+				cases = append(cases, c09Case{Shape: sh, Faults: []c09Fault{f1, {Scan: fi}}}, c09Case{Shape: sh, Faults: []c09Fault{{Scan: fi}, f1}})
+			}
+		}
+	}
 	big := []int{70}
 	for k := 1; k <= 72; k += 5 {
 		cases = append(cases, c09Case{Shape: big, Faults: []c09Fault{{Write: k}, {}}}, c09Case{Shape: big, Faults: []c09Fault{{Exec: k}, {}}})
@@ -354,8 +397,14 @@ func runC09(c *rt.Ctx) {
 		c.Count("events", int64(len(trace)))
 		nfault := 0
 		for _, f := range cs.Faults {
-			if f.Exec != 0 || f.Write != 0 {
+			if f.Exec != 0 || f.Write != 0 || f.Read != 0 || f.Scan != 0 {
 				nfault++
+			}
+			if f.Read != 0 {
+				c.Count("read-faults", 1)
+			}
+			if f.Scan != 0 {
+				c.Count("unscannable-file-attempts", 1)
 			}
 		}
 		c.Eval(rt.Digest(trace), nfault > 0 && len(trace) > 0)
